@@ -47,7 +47,7 @@ func TestC06(t *testing.T) {
 						arrived[tag] = true
 					}
 				}
-				if strings.Contains(r.logSend(f[1]), "rpc.serverInfo") {
+				if strings.Contains(r.readText(f[1]), "rpc.serverInfo") {
 					infoReadAt = i
 				}
 			case "hstart":
@@ -132,7 +132,7 @@ func TestC06(t *testing.T) {
 		}
 	}
 	if sr, ok := loadSchedReplay(); ok {
-		runOne(&sr.Scenario, replayPick(sr.Choices), true)
+		runOne(&sr.Scenario, sr.picker(), true)
 	} else {
 		for i := 0; i < pick(250, 2500); i++ {
 			sc := &srvScenario{Concurrency: []int{1, 2, 3, 5}[rng.Intn(4)]}
@@ -145,7 +145,7 @@ func TestC06(t *testing.T) {
 				sc.Ops = insertOp(rng, sc.Ops, envOp{Kind: "send", Arg: `{"jsonrpc":"2.0","id":"info","method":"rpc.serverInfo"}`})
 			}
 			for j := 0; j < pick(8, 25); j++ {
-				runOne(sc, rngPick(rand.New(rand.NewSource(rng.Int63()))), true)
+				runOne(sc, seededPick(rng), true)
 			}
 		}
 		// corpus
@@ -158,13 +158,13 @@ func TestC06(t *testing.T) {
 		}
 		for _, sc := range corpus {
 			for j := 0; j < pick(30, 300); j++ {
-				runOne(sc, rngPick(rand.New(rand.NewSource(rng.Int63()))), true)
+				runOne(sc, seededPick(rng), true)
 			}
 		}
 		// cancelled waiter: c2 waits behind held c1; CancelRequest("2"); c2 must be answered -32097 without running
 		csc := &srvScenario{Concurrency: 1, Ops: []envOp{{Kind: "send", Arg: reqCall(1, "Hc1", "ok")}, {Kind: "send", Arg: reqCall(2, "c2", "ok")}, {Kind: "cancel", Arg: "2"}}}
 		for j := 0; j < pick(60, 600); j++ {
-			r := runServerScenario(t, csc, rngPick(rand.New(rand.NewSource(rng.Int63()))), nil)
+			r := runServerScenario(t, csc, seededPick(rng), nil)
 			res.Case(logShape(r.Log), true, "cancelled-waiter")
 			cancelAt, c2start, c2acq := -1, -1, -1
 			reply := ""
@@ -357,7 +357,7 @@ func TestC07(t *testing.T) {
 				if stopped {
 					continue
 				}
-				ms := c07Members(r.logSendText(f[1]))
+				ms := c07Members(r.readText(f[1]))
 				if len(ms) > 0 {
 					queue = append(queue, ms)
 				}
@@ -492,7 +492,7 @@ func TestC07(t *testing.T) {
 		exps = append(exps, expect{in, obs, verdicts, r.Log})
 	}
 	if sr, ok := loadSchedReplay(); ok {
-		runOne(&sr.Scenario, replayPick(sr.Choices))
+		runOne(&sr.Scenario, sr.picker())
 	} else {
 		for i := 0; i < pick(250, 2500); i++ {
 			sc := &srvScenario{Concurrency: 1 + rng.Intn(3)}
@@ -504,7 +504,7 @@ func TestC07(t *testing.T) {
 				sc.Ops = insertOp(rng, sc.Ops, envOp{Kind: "stop"})
 			}
 			for j := 0; j < pick(8, 25); j++ {
-				runOne(sc, rngPick(rand.New(rand.NewSource(rng.Int63()))))
+				runOne(sc, seededPick(rng))
 			}
 		}
 		corpus := []*srvScenario{
@@ -515,7 +515,7 @@ func TestC07(t *testing.T) {
 		}
 		for _, sc := range corpus {
 			for j := 0; j < pick(40, 400); j++ {
-				runOne(sc, rngPick(rand.New(rand.NewSource(rng.Int63()))))
+				runOne(sc, seededPick(rng))
 			}
 		}
 	}
